@@ -114,3 +114,53 @@ def verify_subdiv_step(src, reg, num_intervals, prop="C01"):
     reg.ground(name + "interpolants-one-per-substep[n=%d]" % num_intervals, "post", "subdiv_step",
                len(s.obj(s.obj(selfobj).fields["_RichardsonExtrapolatedIntegrator__interpolants"]).items) == num_intervals, backend="lincomb-exact")
     return fi
+
+
+def verify_common_interval(src, reg, richardson_iter, prop="C01"):
+    """adaptive_richardson over a base method that may shorten the step (an adaptive base: its contract is sign kept, |dTime| <= |step|):
+    every pass of the extrapolation table covers the same interval -- the one the first, undivided pass actually covered -- in both time
+    directions, and that interval is what is returned.  (Defect F32: the comparison that adopts the shortened step was signed, so in
+    decreasing time the finer passes kept the requested step.)"""
+    ex = Executor(src, reg, prop=prop)
+    _grid_hooks(ex)
+    fi = src.func(FILE, CLS + ".adaptive_richardson")
+    st = State()
+    grid = st.new_obj("Grid")
+    sdict = st.new_obj("dict", "dict", items={})
+    selfobj = st.new_obj("RichardsonExtrapolatedIntegrator", fields=dict(richardson_iter=richardson_iter, stage_values=grid, solver_dict=sdict, basis_order=Fraction(4)))
+    h = z3.Real("h_req")
+    st.assume(h != 0)
+    covered0 = z3.Real("covered_by_first_pass")
+    st.assume(z3.And(z3.Implies(h > 0, z3.And(covered0 > 0, covered0 <= h)), z3.Implies(h < 0, z3.And(covered0 < 0, covered0 >= h))))
+    asked = []
+
+    def subdiv(ex_, st_, ctx, args, kwargs):
+        _self, int_num, rhs, t, y, timestep, constants, num_intervals = args
+        st_.ghost.setdefault("asked", []).append((int_num, timestep))          # per path
+        if int_num == 0:
+            return (timestep, (covered0, LinComb.sym("T0")))          # the base method covered `covered0` of the requested step
+        return (timestep, (timestep, LinComb.sym("T%d" % int_num)))
+
+    def conv(ex_, st_, ctx, args, kwargs):
+        return (args[2], z3.Bool(fresh_name("t_conv")))
+    ex.call_hooks["RichardsonExtrapolatedIntegrator.subdiv_step"] = subdiv
+    ex.call_hooks["RichardsonExtrapolatedIntegrator.check_converged"] = conv
+    ctx = Ctx(fi, None, fi.cls, tag="adaptive_richardson[iter=%d,adaptive-base]" % richardson_iter)
+    consts = st.new_obj("dict", "dict", items={})
+    paths = ex.call_function(fi, [selfobj, UFunc("rhs", "lincomb"), z3.Real("t"), LinComb.sym("y"), consts, h], {}, st, ctx)
+    n = 0
+    for k, (s, v) in enumerate(paths):
+        if isinstance(v, Raised):
+            reg.ground("%s/%s/no-exception#%d" % (prop, ctx.tag, k), "post-exc", "adaptive_richardson", False, detail=repr(v.exc))
+            continue
+        n += 1
+        ts, (dt, dy), diff = v
+        finer = [z3.Real("dummy") == z3.Real("dummy")]
+        goals = [dt == covered0, ts == covered0]
+        # the finer passes were asked for exactly that interval
+        for lvl, req in s.ghost.get("asked", []):
+            if lvl > 0:
+                goals.append(req == covered0)
+        ex.prove(s, ctx, z3.And(*goals), "post", "all-passes-cover-the-interval-the-first-pass-covered#%d" % k)
+    reg.ground("%s/%s/paths-explored" % (prop, ctx.tag), "lemma", "adaptive_richardson", n >= 1, detail="%d paths" % n)
+    return fi
